@@ -415,6 +415,22 @@ func c19Canon(env *core.Env, url, version, fragment string) {
 	if built.GetValue() != text {
 		env.Violatef("C19/canonical/build", "canonical.New(%q, version %q, fragment %q) = %q", url, version, fragment, built.GetValue())
 	}
+	// the options in the other order, and an option given twice (the last one wins or both are equal): same text
+	if version != "" && fragment != "" {
+		for name, opts := range map[string][]canonical.Option{
+			"fragment-first":   {canonical.WithFragment(fragment), canonical.WithVersion(version)},
+			"version-repeated": {canonical.WithVersion(version), canonical.WithFragment(fragment), canonical.WithVersion(version)},
+		} {
+			var b2 *dtpb.Canonical
+			o2 := env.Guard("canonical.New "+name, func() { b2 = canonical.New(url, opts...) })
+			env.Eval(1)
+			if o2.Panicked || o2.Dead {
+				env.Violatef("C19/panic@"+o2.Site+"/canonical", "canonical.New(%q, %s) panicked: %s", url, name, o2.PanicMsg)
+			} else if b2.GetValue() != text {
+				env.Violatef("C19/canonical/build/"+name, "canonical.New(%q, options %s: version %q, fragment %q) = %q, expected %q", url, name, version, fragment, b2.GetValue(), text)
+			}
+		}
+	}
 	if err != nil {
 		env.Violatef("C19/canonical/rejected", "IdentityFromReference(%q): %v", text, err)
 		return
